@@ -108,7 +108,8 @@ def corpus_busy_group(ctx):
     import world as worldmod
     probs = []
     with envmod.Env() as e:
-        for nn, stage, extra_req in itertools.product([1, 2, 3], ["search-queued", "pull-queued"], [False, True]):
+        lines, reals, metas = [], [], []
+        for nn, stage, extra_req in itertools.product([1, 2, 3], ["search-queued", "pull-queued", "finished"], [False, True]):
             w = worldmod.World(e)
             db = w.db
             for m in (db.StorageTransferAction, db.ArchiveFileCopyRequest, db.ArchiveFileImportRequest, db.ArchiveFileCopy,
@@ -136,10 +137,27 @@ def corpus_busy_group(ctx):
                             break
                         r = d.run_task()
                         log.append(f"ran {r[1] if r else None}; queued now {[t[1] for t in d.pending()]}")
+                if stage == "finished":
+                    d.drain()
+                    log.append("the workers finished everything that was queued")
                 if extra_req:
                     w.req(f, src2, gt)
+                # what the pass is about to see of the group's queues, for the Lean rule `dispatchPass`
+                gf = d.queue.fifo_size("g:gt")
+                nfs = [d.queue.fifo_size(f"n:t{i}") for i in range(nn)]
+                RQ_ = db.ArchiveFileCopyRequest
+                npend = RQ_.select().where(RQ_.completed == 0, RQ_.cancelled == 0).count()
+                before_search = sum(1 for t in d.pending() if t[1].startswith("Pre-pull search for acq/f.dat"))
                 d.iterate()
                 pend = [t[1] for t in d.pending()]
+                dispatched = sum(1 for x in pend if x.startswith("Pre-pull search for acq/f.dat")) - before_search
+                # "processed" = the pass looked at the group's requests: it queued a search, or it settled a request on the spot
+                # (cancelled as already present)
+                if RQ_.select().where(RQ_.completed == 0, RQ_.cancelled == 0).count() < npend:
+                    dispatched = max(dispatched, 1)
+                lines.append(f"gbusy {gf} {','.join(map(str, nfs))} {'1' if npend else '-'}")
+                reals.append("1" if dispatched > 0 else "-")
+                metas.append((nn, stage, extra_req))
                 log.append(f"pass 2; queued now {pend}")
             finally:
                 os.environ["PATH"] = "/usr/local/bin:/usr/bin:/bin"
@@ -154,6 +172,11 @@ def corpus_busy_group(ctx):
             if len(transfers) > 1:
                 probs.append((f"with a transfer of acq/f.dat into group gt still in flight ({stage}) the next update pass queued another one: "
                               f"{transfers} ({nn} node(s) in the group)", log))
+        outs = common.Driver().batch(lines)
+        for l, r, o, m in zip(lines, reals, outs, metas):
+            ctx.count(f"busy-group:model:{'dispatch' if o != '-' else 'busy'}")
+            if (o != "-") != (r != "-") and len(ctx.corr_broken) < 6:
+                ctx.corr_broken.append({"stream": "group-update-vs-dispatchPass", "scenario": list(m), "op": l, "real_dispatched": r, "model": o})
     return probs
 
 
